@@ -17,31 +17,44 @@ from pbt.core import Result, pf_tol, silence, exc_sig, pf_outcome
 ID = "C19"
 LEVEL = "exploration"
 EXAMPLES = {"quick": 480, "thorough": 9000}
-DEADLINE_S = {"quick": 300, "thorough": 3000}
+DEADLINE_S = {"quick": 600, "thorough": 3000}
 SHRINK_S = {"quick": 25, "thorough": 90}
 TECHNIQUE = ("property-based testing: generated networks + generated observable measurement plans; oracle = power-flow "
              "result tables (round trip PF -> exact measurements -> SE) and metamorphic relations (row order, exact duplicates)")
-RULE = ("Hypothesis draws a netgen.grid recipe (1-3 voltage levels, lines incl. parallel/open-ended, 2W/3W transformers with "
-        "taps and phase shift, impedances, shunts, wards, bus-bus switches with and without impedance, several slacks, "
-        "out-of-service parts) and a measurement plan: an observable core (v at >=1 bus per island plus EITHER p,q injections at "
-        "all energized buses [optionally leaving out injection-free buses when zero_injection='no_inj_bus'] OR p,q flows on a "
-        "random spanning tree of lines/trafos/trafo3w sides), redundant extras of every documented type (v,p,q at buses; p,q,i "
-        "on line/trafo/trafo3w, every side), exact duplicates, std_dev = 0.2..5 x (0.4 % p.u. | 1 % of the level's MVA / kA "
-        "scale), optionally all measurable quantities; options algorithm wls/irwls/wls_with_zero_constraint, init flat/results, "
-        "tolerance 1e-6/1e-8, zero_injection aux_bus/no_inj_bus. Values are the AC power-flow results (bus injection = sum of "
-        "load/sgen/gen/ext_grid/storage/motor results + ward constant-power part, load reference). Oracle: estimate() reports "
-        "success; res_bus_est vm/va and res_line/trafo/trafo3w/impedance_est flows equal the PF tables; re-creating the table in "
-        "a random order with extra exact duplicates gives the same estimate; with >=1 degree of freedom chi2_analysis returns "
-        "False and remove_bad_data returns True without dropping a row. Non-trivial = estimate ran on >=1 redundant "
-        "measurement (beyond the core) and the energized network has a transformer or a loop; distinct by case hash.")
+RULE = ("Hypothesis draws a netgen.grid recipe (1-3 voltage levels, <=12 buses, lines incl. parallel systems, 2W/3W transformers with "
+        "taps and phase shift, impedances, shunts, wards, motors, bus-bus switches with and without impedance, several slacks) plus "
+        "0-4 own perturbations (element out of service / switch open / bus out of service) and a measurement plan: an observable "
+        "core (v at >=1 bus per island plus EITHER p,q injections at all energized buses [optionally leaving out the injection-free "
+        "buses that are declared through zero_injection] OR p,q flows on a random spanning tree of lines/trafos/trafo3w sides), "
+        "redundant extras of every documented type (v,p,q at buses; p,q,i on line/trafo/trafo3w, every side, also at open line ends "
+        "and - value 0 - on de-energized branches), exact duplicates, std_dev = 0.2..5 x (0.4 % p.u. | 1 % of the level's MVA / kA "
+        "scale), sometimes every measurable quantity, sometimes the side given as bus index; options algorithm "
+        "wls/irwls/wls_with_zero_constraint, init flat/results, tolerance 1e-6/1e-8, zero_injection aux_bus / explicit bus list / "
+        "no_inj_bus. Measurement values are the AC power-flow results (bus injection = sum of load/sgen/gen/ext_grid/storage/motor "
+        "results + ward constant-power part, load reference system). Oracle: estimate() reports success; res_bus_est vm/va (NaN "
+        "pattern included) and res_line/trafo/trafo3w/impedance_est p,q,i equal the PF tables; re-creating the table in a random "
+        "order (or re-ordering its rows) with extra exact duplicates gives the same estimate; with >=1 degree of freedom "
+        "chi2_analysis returns False and (full sets only) remove_bad_data returns True without dropping a row. Non-trivial = "
+        "estimate ran (not skipped) on >=1 redundant live measurement beyond the core and the energized network has a transformer "
+        "or a loop; distinct by case hash.")
 ASSUMPTIONS = [
-    "power flow (runpp, calculate_voltage_angles=True, trafo_model 't', tolerance 1e-10 p.u.) is the trusted source of the true state",
-    "bus p/q measurements exclude shunt and ward-impedance power (these belong to the estimator's network model, cf. estimation/util.py:remove_shunt_injection_from_meas)",
-    "all buses of a fused node (closed zero-impedance bus-bus switches) are measured together when one of them gets a p/q measurement (estimate sums them per fused bus)",
-    "xward (internal PV bus cannot be measured) and dcline are not generated; v/p/q measurements are only placed at energized buses",
-    "std_dev within a factor 25 of a common relative accuracy: wildly unbalanced weights together with current-magnitude measurements give WLS local minima (theory, not a defect)",
-    "tolerances: vm 2e-6 p.u., va 2e-4 degree, flows 1e-5 MVA*max(1,sn/100) + 1e-6 relative + short-circuit power of the branch * 4e-6 (state tolerance of the estimator is 1e-6)",
-    "chi2_analysis / remove_bad_data only when distinct live measurements > 2*(upper bound of the number of internal buses) (>=1 degree of freedom)",
+    "power flow (runpp, calculate_voltage_angles=True, trafo_model 't', tolerance 1e-10 p.u.) is the trusted source of the true state; "
+    "cases in which every energized bus is a slack bus and an ext_grid angle is != 0 are skipped (runpp bypass drops the angles)",
+    "bus p/q measurements exclude shunt and ward-impedance power (these belong to the estimator's network model, cf. "
+    "estimation/util.py:remove_shunt_injection_from_meas); load reference system as documented in create_measurement",
+    "all buses of a fused node (closed zero-impedance bus-bus switches) are measured together when one of them gets a p/q measurement "
+    "(estimate sums the measurements per fused bus)",
+    "xward (internal PV bus cannot be measured) and dcline are not generated; v/p/q bus measurements only at energized buses; current "
+    "magnitude measurements only at terminals carrying >= 0.1 % of the level's current scale (|I| is not differentiable at 0)",
+    "std_dev within a factor 25 of a common relative accuracy: wildly unbalanced weights together with current-magnitude measurements "
+    "give WLS local minima (theory, not a defect)",
+    "non-convergence is a failure, except from a start that is far from an extreme operating point (|vm-1| > 0.1 or a branch loaded "
+    "> 100 %: init='flat', or auxiliary buses that estimate always starts flat) and the documented rejection of wls_with_zero_constraint "
+    "without zero-injection bus",
+    "tolerances: vm 2e-6 p.u., va 2e-4 degree, flows 1e-5 MVA*max(1,sn/100) + 1e-6 relative + short-circuit power of the branch * 4e-6 "
+    "(state tolerance of the estimator is 1e-6)",
+    "chi2_analysis only when distinct live measurements > 2*(upper bound of the number of internal buses) (>=1 degree of freedom); "
+    "remove_bad_data additionally only for the full measurement set on islands with >= 2 nodes (normalised residuals are undefined for critical measurements)",
 ]
 
 # out-of-service parts and open switches are added by _perturb below (netgen's float draws make most networks dead)
@@ -118,7 +131,7 @@ def _case(draw, tier):
     opt = {"algorithm": alg, "init": draw(st.sampled_from(["flat", "flat", "flat", "results", "results"])),
            "tolerance": draw(st.sampled_from([1e-6, 1e-6, 1e-8])), "zero_injection": zi}
     plan = {"core": draw(st.sampled_from(["inj", "inj", "flow", "flow", "flow"])),
-            "sparse": draw(st.booleans()),                     # inj core: leave out injection-free buses (zero_injection=no_inj_bus)
+            "sparse": draw(st.sampled_from([True, True, True, False])),                     # inj core: leave out injection-free buses (zero_injection=no_inj_bus)
             "tree_seed": draw(st.integers(0, 999)),
             "v": draw(st.lists(st.integers(0, 40), min_size=0, max_size=3)),   # additional voltage measurements
             "core_sd": draw(netgen.q(0.2, 5.0, nd=1)),
@@ -561,7 +574,7 @@ def check(case):
         fsig = "flat+i-meas"
     else:
         fsig = "plain"
-    shape = fsig in ("side-as-bus", "t3-terminal-oos", "zero-constraint-sn!=1", "phase-shift-no-dc-init")
+    shape = fsig != "plain"
 
     def sig(coarse, fine):
         """known input shapes get one coarse signature per kind of observation, everything else a detailed one"""
@@ -627,7 +640,9 @@ def check(case):
             return "fail", (sig("exc", "exc/" + where), {"error": repr(e)[:300]})
         if not _success(r):
             if stressed and (init == "flat" or T.n_aux > 0):
-                # Gauss-Newton from a flat start is not expected to reach an extreme operating point (documented return value False)
+                # Gauss-Newton is not expected to reach an extreme operating point from a start that is far away: flat start,
+                # or auxiliary buses (open switch / out-of-service terminal), which estimate always starts at 1 p.u. / 0 degree.
+                # False is a documented return value.
                 return "skip", "not-converged:stressed-state"
             return "fail", (sig("not-successful", "not-successful/%s/%s" % (alg, init)),
                             {"returned": repr(r)[:200], "loading": loading, "vmdev": vmdev})
@@ -713,27 +728,28 @@ def check(case):
                 return "returned-%r" % (ok,), None
             return None, None
 
+        # A flag that vanishes when the same call iterates to tolerance 1e-11 has one root cause: the statistics are computed
+        # from the residual vector of the iterate before the last update ("stale-residual/<test>", a fact about the observation)
         if bad in ("chi2", "both"):
             res.label("chi2-test")
             try:
                 flagged = chi2(opt["tolerance"])
                 if flagged is not False:
-                    # classification by a fact about the observation: does the flag vanish when the iteration is converged tightly?
                     try:
                         again = chi2(1e-11)
                     except Exception:
                         again = "exc"
-                    cls = "vanishes-at-tolerance-1e-11" if again is False else fsig
-                    res.fail(sig("chi2", "chi2/flagged") if again is not False else "chi2/flagged/" + cls, returned=repr(flagged), at_tol_1e_11=repr(again), opt=opt, n_meas=len(rows))
+                    res.fail("stale-residual/chi2" if again is False else sig("chi2", "chi2/flagged"), returned=repr(flagged),
+                             at_tol_1e_11=repr(again), opt=opt, n_meas=len(rows))
             except Exception as e:
                 res.fail(sig("chi2", "chi2/exc/" + exc_sig(e)), error=repr(e)[:300], opt=opt)
         # largest-normalised-residual test: undefined for critical measurements (residual covariance 0), therefore only
-        # with the full measurement set, where every measurement is redundant
+        # with the full measurement set on islands with >= 2 nodes, where every measurement is redundant
         if plan["full"] and all(len(c) >= 2 for c in T.components):
             res.label("rn_max-test")
             what, detail = rn_max(opt["tolerance"])
             if what:
                 again, _ = rn_max(1e-11)
-                cls = "vanishes-at-tolerance-1e-11" if again is None else fsig
-                res.fail(sig("rn_max", "rn_max/" + what) if again is not None else "rn_max/%s/%s" % (what, cls), detail=detail, at_tol_1e_11=again, opt=opt, n_meas=len(rows))
+                res.fail("stale-residual/rn_max" if again is None else sig("rn_max", "rn_max/" + what), observed=what, detail=detail,
+                         at_tol_1e_11=again, opt=opt, n_meas=len(rows))
     return res
